@@ -911,6 +911,14 @@ class Network:
                 return_when=asyncio.FIRST_COMPLETED
             )
 
+        except asyncio.CancelledError:
+            # Cancelled (other attempt won the race, request cancelled) right
+            # after a connection got established for this attempt: it will not
+            # be returned and should not be left behind
+            if expected_connection_future.done() and not expected_connection_future.cancelled():
+                await expected_connection_future.result().disconnect(CloseReason.REQUESTED)
+            raise
+
         finally:
             # Whatever happens here (also when sending failed or when this
             # attempt got cancelled), we can cancel all pending futures
